@@ -66,7 +66,7 @@ class World:
         rate = z3.Real(f"{name}.rate")
         self.req.append(rate > 0)
         node = Rec("BaseNode", dict(name=name, rate=rate, advance=advance, scheduling=SCHED[scheduling], delay=z3.Real(f"{name}.delay"),
-                                    phase=z3.Real(f"{name}.node_phase"), inputs={}, outputs={}), module=None)
+                                    phase=z3.Real(f"{name}.node_phase"), inputs={}, outputs={}), module="rex/node.py")
         return node
 
     def node(self, name, state="RUNNING", advance=False, scheduling="FREQUENCY", rs=None, input_names=()):
@@ -93,7 +93,7 @@ class World:
         window = z3.Int(f"{tag}.window")
         self.req.append(window >= 1)
         c = Rec("Connection", dict(blocking=blocking, skip=z3.Bool(f"{tag}.skip") if skip is None else skip, jitter=JIT[jitter], window=window,
-                                   input_name=input_name, output_node=out_w.f["node"], input_node=in_w.f["node"], delay=z3.Real(f"{tag}.delay")), module=None)
+                                   input_name=input_name, output_node=out_w.f["node"], input_node=in_w.f["node"], delay=z3.Real(f"{tag}.delay")), module="rex/node.py")
         w = Rec("_AsyncConnectionWrapper", dict(
             connection=c, output_node=out_w, input_node=in_w, _state=ASYNC[state], _num_buffer=50, _jit_sample=sample_model(),
             _jit_update_input_state=Closure(self.ctx.repo.find(AS + "::update_input_state")[1], [], self.ctx.repo.module(AS)),
